@@ -229,3 +229,222 @@ func VfC03_TypeChecks() {
 	ir.NewInsertValue(ir.NewParam("a", agg), ir.NewParam("e", to), 1, 2)
 	vfAssert("C03.constructors.accept-well-typed", true)
 }
+
+// ---------------------------------------------------------------------------
+// Structural faithfulness (generated comparator, see zz_vf_c03_gen.go): the
+// constructed function and the re-parse of its printed text agree instruction
+// by instruction on dynamic type, result name and type, every operand (type
+// and identifier) and every flag/enum/alignment field; and this still holds
+// after any single-field variation (one flag set, one enum member chosen, ...)
+// of any one instruction of the program.
+
+// hC03Targets lists the instructions and terminators of f that have at least
+// one generated variation, in layout order.
+func hC03All(f *ir.Func) []interface{} {
+	var all []interface{}
+	for _, b := range f.Blocks {
+		for _, i := range b.Insts {
+			all = append(all, i)
+		}
+		if b.Term != nil {
+			all = append(all, b.Term)
+		}
+	}
+	return all
+}
+
+func hC03Deep(m *ir.Module, f *ir.Func) {
+	all := hC03All(f)
+	var tg []interface{}
+	var cum []int
+	total := 0
+	for _, x := range all {
+		if n := hGenNumVary(x); n > 0 {
+			tg = append(tg, x)
+			total += n
+			cum = append(cum, total)
+		}
+	}
+	// variation 0 = the program as constructed
+	v := vfChoice("variation", total+1)
+	if v > 0 {
+		v--
+		for i, x := range tg {
+			if v < cum[i] {
+				k := v
+				if i > 0 {
+					k = v - cum[i-1]
+				}
+				hGenVary(x, k)
+				break
+			}
+		}
+	}
+	vfReach("C03.deep.built")
+	s := m.String()
+	vfObserveStr("printed", s)
+	m2, err := ParseString("t.ll", s)
+	vfAssert("C03.deep.reparses", err == nil)
+	if err != nil {
+		return
+	}
+	var f2 *ir.Func
+	for _, g := range m2.Funcs {
+		if vfEqStr(g.Name(), f.Name()) {
+			f2 = g
+		}
+	}
+	vfAssert("C03.deep.function-found", f2 != nil)
+	if f2 == nil {
+		return
+	}
+	all2 := hC03All(f2)
+	vfAssert("C03.deep.same-count", len(all2) == len(all))
+	if len(all2) != len(all) {
+		return
+	}
+	for i := range all {
+		vfAssert("C03.deep.same-instruction", hGenSame(all[i], all2[i]))
+	}
+	vfAssert("C03.deep.fixpoint", m2.String() == s)
+}
+
+// hC03Arith, hC03Mem, hC03Terms, hC03Funclets build the four programs; between
+// them they call every instruction and terminator constructor.
+
+//vf:unwind 600
+//vf:steps 200000000
+//vf:shards 16
+func VfC03_DeepArith() {
+	m := ir.NewModule()
+	it := types.I32
+	f := m.NewFunc(hLetterIn("fname", 'a', 'e'), types.Void,
+		ir.NewParam("x", it), ir.NewParam("y", it), ir.NewParam("p", types.NewPointer(it)),
+		ir.NewParam("d", types.Double), ir.NewParam("v", types.NewVector(4, it)), ir.NewParam("c", types.I1))
+	b := f.NewBlock("entry")
+	x, y, p, d, c := value.Value(f.Params[0]), value.Value(f.Params[1]), value.Value(f.Params[2]), value.Value(f.Params[3]), value.Value(f.Params[5])
+	b.NewAdd(x, constant.NewInt(it, int64(vfByte("k")&7))) // symbolic constant operand
+	b.NewSub(x, y)
+	b.NewMul(x, y)
+	b.NewUDiv(x, y)
+	b.NewSDiv(x, y)
+	b.NewURem(x, y)
+	b.NewSRem(x, y)
+	b.NewShl(x, y)
+	b.NewLShr(x, y)
+	b.NewAShr(x, y)
+	b.NewAnd(x, y)
+	b.NewOr(x, y)
+	b.NewXor(x, y)
+	b.NewFAdd(d, d)
+	b.NewFSub(d, d)
+	b.NewFMul(d, d)
+	b.NewFDiv(d, d)
+	b.NewFRem(d, d)
+	b.NewFNeg(d)
+	cmp := b.NewICmp(enum.IPredSLT, x, y)
+	b.NewFCmp(enum.FPredOLT, d, d)
+	b.NewSelect(cmp, d, d)
+	b.NewSelect(c, x, y)
+	wide := b.NewZExt(x, types.I64)
+	b.NewSExt(x, types.I64)
+	b.NewTrunc(wide, types.I8)
+	b.NewFPTrunc(d, types.Float)
+	fl := b.NewFPExt(constant.NewFloat(types.Float, 1), types.Double)
+	b.NewFPToUI(fl, it)
+	b.NewFPToSI(d, it)
+	b.NewUIToFP(x, types.Double)
+	b.NewSIToFP(x, types.Double)
+	pi := b.NewPtrToInt(p, types.I64)
+	b.NewIntToPtr(pi, types.NewPointer(it))
+	b.NewBitCast(p, types.I8Ptr)
+	as := types.NewPointer(it)
+	as.AddrSpace = 1
+	b.NewAddrSpaceCast(p, as)
+	b.Insts = append(b.Insts, ir.NewInstFreeze(x)) // no builder method exists for freeze
+	b.NewRet(nil)
+	hC03Deep(m, f)
+}
+
+//vf:unwind 600
+//vf:steps 200000000
+//vf:shards 16
+func VfC03_DeepMemory() {
+	m := ir.NewModule()
+	it := types.I32
+	callee := m.NewFunc("callee", types.Double, ir.NewParam("a", it))
+	vcallee := m.NewFunc("vcallee", it, ir.NewParam("a", it))
+	vcallee.Sig.Variadic = true
+	f := m.NewFunc(hLetterIn("fname", 'a', 'e'), types.Void,
+		ir.NewParam("x", it), ir.NewParam("p", types.NewPointer(it)), ir.NewParam("v", types.NewVector(4, it)), ir.NewParam("d", types.Double), ir.NewParam("va", types.I8Ptr))
+	b := f.NewBlock("entry")
+	x, p, v, d, va := value.Value(f.Params[0]), value.Value(f.Params[1]), value.Value(f.Params[2]), value.Value(f.Params[3]), value.Value(f.Params[4])
+	one := constant.NewInt(types.I32, 1)
+	al := b.NewAlloca(it)
+	b.NewStore(x, al)
+	ld := b.NewLoad(it, p)
+	b.NewFence(enum.AtomicOrderingAcquire)
+	b.NewCmpXchg(p, x, ld, enum.AtomicOrderingMonotonic, enum.AtomicOrderingMonotonic)
+	b.NewAtomicRMW(enum.AtomicOpAdd, p, x, enum.AtomicOrderingSequentiallyConsistent)
+	st := types.NewStruct(it, types.NewArray(2, types.I8), types.NewStruct(types.I8, types.I64))
+	sp := b.NewAlloca(st)
+	b.NewGetElementPtr(st, sp, constant.NewInt(types.I32, 0), one, one)
+	agg := b.NewLoad(st, sp)
+	b.NewExtractValue(agg, 1, 0)
+	b.NewInsertValue(agg, x, 0)
+	b.NewInsertValue(agg, constant.NewInt(types.I64, int64(vfByte("k")&7)), 2, 1)
+	e := b.NewExtractElement(v, one)
+	iv := b.NewInsertElement(v, e, one)
+	b.NewShuffleVector(v, iv, constant.NewZeroInitializer(types.NewVector(4, types.I32)))
+	call := b.NewCall(callee, x)
+	b.NewCall(vcallee, x, d)
+	b.NewPhi(ir.NewIncoming(call, b))
+	b.NewVAArg(va, it)
+	b.NewRet(nil)
+	hC03Deep(m, f)
+}
+
+//vf:unwind 600
+//vf:steps 200000000
+//vf:shards 16
+func VfC03_DeepTerminators() {
+	m := ir.NewModule()
+	it := types.I32
+	callee := m.NewFunc("callee", types.Void)
+	f := m.NewFunc(hLetterIn("fname", 'a', 'e'), it, ir.NewParam("x", it), ir.NewParam("c", types.I1), ir.NewParam("t", types.I8Ptr))
+	f.Personality = callee
+	x, c, t := value.Value(f.Params[0]), value.Value(f.Params[1]), value.Value(f.Params[2])
+	entry := f.NewBlock("entry")
+	b1, b2, b3, b4, b5, b6, b7, lp := f.NewBlock("b1"), f.NewBlock("b2"), f.NewBlock("b3"), f.NewBlock("b4"), f.NewBlock("b5"), f.NewBlock("b6"), f.NewBlock("b7"), f.NewBlock("lp")
+	entry.NewCondBr(c, b1, b2)
+	b1.NewSwitch(x, b2, ir.NewCase(constant.NewInt(it, int64(vfByte("k")&3)), b3), ir.NewCase(constant.NewInt(it, 4), b4))
+	b2.NewBr(b3)
+	b3.NewInvoke(callee, nil, b4, lp)
+	b4.NewRet(x)
+	b5.NewUnreachable()
+	b6.NewIndirectBr(t, b4, b5)
+	b7.NewCallBr(ir.NewInlineAsm(types.NewPointer(types.NewFunc(types.Void)), "", ""), nil, b4, b5)
+	pad := lp.NewLandingPad(types.NewStruct(types.I8Ptr, types.I32))
+	pad.Cleanup = true
+	lp.NewResume(pad)
+	hC03Deep(m, f)
+}
+
+//vf:unwind 600
+//vf:steps 200000000
+//vf:shards 16
+func VfC03_DeepFunclets() {
+	m := ir.NewModule()
+	callee := m.NewFunc("callee", types.Void)
+	f := m.NewFunc(hLetterIn("fname", 'a', 'e'), types.Void)
+	f.Personality = callee
+	entry, ok, cs, cp, cl := f.NewBlock("entry"), f.NewBlock("ok"), f.NewBlock("cs"), f.NewBlock("cp"), f.NewBlock("cl")
+	entry.NewInvoke(callee, nil, ok, cs)
+	ok.NewInvoke(callee, nil, ok, cl)
+	sw := cs.NewCatchSwitch(constant.None, []*ir.Block{cp}, nil)
+	pad := cp.NewCatchPad(sw, constant.NewNull(types.I8Ptr))
+	cp.NewCatchRet(pad, ok)
+	cpad := cl.NewCleanupPad(constant.None)
+	cl.NewCleanupRet(cpad, nil)
+	hC03Deep(m, f)
+}
